@@ -144,21 +144,19 @@ func TestVerifC13(t *testing.T) {
 	p.WSync = 14
 	p.WFailover = 2
 	p.WLeave = 6
-	n := r.N(800, 15000)
-	for ci := 0; ci < n; ci++ {
-		rng := r.Rand(ci)
-		cfg := gGenConfig(rng, p, fmt.Sprintf("g%d", ci))
-		ops := gGenOps(rng, p, cfg)
+	n := r.N(600, 40000)
+	seen := func(w *gWorld, ev *gEvent) { r.Seen("group_states", w.stateSig(ev.After)) }
+	mk := func(w *gWorld) *c13Obs {
 		o := &c13Obs{r: r, model: map[c13Key]int64{}, removedBy: map[string]string{}}
-		w := gRunCase(t, cfg, ops, int64(ci)*100000, func(w *gWorld) {
-			// baseline of every offset a case can touch, read before the first request
-			for _, tp := range w.cfg.Universe {
-				for pt := int32(0); pt < 5; pt++ {
-					o.model[c13Key{tp, pt}] = w.storedOffset(tp, pt)
-				}
+		// baseline of every offset a case can touch, read before the first request
+		for _, tp := range w.cfg.Universe {
+			for pt := int32(0); pt < 5; pt++ {
+				o.model[c13Key{tp, pt}] = w.storedOffset(tp, pt)
 			}
-			w.obs = append(w.obs, o.observe, func(w *gWorld, ev *gEvent) { r.Seen("group_states", w.stateSig(ev.After)) })
-		})
+		}
+		return o
+	}
+	account := func(ci int, w *gWorld, o *c13Obs) {
 		if w.blocked {
 			r.Inconclusive(fmt.Sprintf("case %d: a coordinator call never returned", ci))
 		}
@@ -171,9 +169,33 @@ func TestVerifC13(t *testing.T) {
 			r.Sample(gWitness(w, -1, nil))
 		}
 	}
-	r.Floor("stale_requests_rejected", 2000)
-	r.Floor("stale_requests_from_formerly_valid_identity_rejected", 300)
+	for ci := 0; ci < n; ci++ {
+		rng := r.Rand(ci)
+		if ci%3 == 2 { // two groups served by one coordinator, interleaved (no failover in this mode)
+			cfgs, ops := gGenPair(rng, p, fmt.Sprintf("g%d", ci))
+			var os [2]*c13Obs
+			ws := gRunPair(t, cfgs, ops, int64(ci)*100000, func(i int, w *gWorld) {
+				os[i] = mk(w)
+				w.obs = append(w.obs, os[i].observe, seen)
+			})
+			account(ci, ws[0], os[0])
+			account(ci, ws[1], os[1])
+			r.Count("cases_with_two_groups_on_one_coordinator", 1)
+			continue
+		}
+		cfg := gGenConfig(rng, p, fmt.Sprintf("g%d", ci))
+		ops := gGenOps(rng, p, cfg)
+		var o *c13Obs
+		w := gRunCase(t, cfg, ops, int64(ci)*100000, func(w *gWorld) {
+			o = mk(w)
+			w.obs = append(w.obs, o.observe, seen)
+		})
+		account(ci, w, o)
+	}
+	r.Floor("stale_requests_rejected", 1000)
+	r.Floor("stale_requests_from_formerly_valid_identity_rejected", 150)
 	r.Floor("stale_commit_from_expired_member_rejected", 10)
 	r.Floor("current_commits_accepted", 200)
 	r.Floor("group_states", 12)
+	r.Exhaustive(false) // a sample of histories; the bounded-exhaustive part is leg enum
 }
